@@ -82,7 +82,8 @@ F64_LITS = ['0', '1', '2', '3', '0.5', '1.5', '2.5', '0.1', '0.2', '0.3', '10', 
             '4.35', '0.7', '12.75', '255', '1e', ]
 F64_LITS = [x for x in F64_LITS if x != '1e']
 F64_PH = [0.0, -0.0, 1.0, -1.0, 0.5, -0.5, 2.5, -2.5, 1e308, -1e308, 5e-324, 2.0**53, 2.0**63, -(2.0**63), float('inf'),
-          float('-inf'), float('nan'), 3.0, 170.0, 171.0, 1e18, 0.1, -0.7]
+          float('-inf'), float('nan'), 3.0, 170.0, 171.0, 1e18, 0.1, -0.7, 1.5e-323, 2.2250738585072014e-308, 1.7976931348623157e308,
+          0.49999999999999994, 4503599627370496.5, -1.5, 9007199254740993.0]
 DEC_LITS = ['0', '1', '2', '3', '0.1', '0.2', '0.3', '1.10', '2.50', '0.5', '10', '100', '7.', '.5', '1.5',
             '79228162514264337593543950335', '7922816251426433759354395033.5', '0.0000000000000000000000000001',
             '1234567890123456789012345678', '12345678901234567890123456789', '39614081257132168796771975168',
